@@ -4,6 +4,7 @@ import os
 import re
 
 from vlib import pipeline
+from vlib.core import log
 
 
 def _handles(reset, cid):
@@ -95,6 +96,8 @@ def _drift(ctx):
         for what, _ in re.findall(r'<<"DRIFT", "([^"]+)", (\d+)>>', open(p).read()):
             d[what] = d.get(what, 0) + 1
         os.unlink(p)
+    if any(d.values()):
+        log("C38 drift (implementation layer I_CNI vs the real code on un-faulted calls; NOT a verdict): %s" % d)
 
 
 def run(ctx):
